@@ -1,5 +1,6 @@
 import SkaModel.Core.SeqChoice
 import SkaModel.Props.C01choice
+import SkaModel.Props.C18
 import Mathlib.Algebra.Order.Field.Basic
 import Mathlib.Tactic.Linarith
 import Mathlib.Data.List.Perm.Subperm
@@ -259,6 +260,151 @@ theorem choiceNR_spec (p : List α) (size : Nat) (hnn : ∀ x ∈ p, 0 ≤ x) (h
     intro i hi; cases hi
   obtain ⟨res, hres⟩ := choiceNR_terminates p size hnn hsize uss [] hu hinv (by simpa using hlen)
   exact ⟨res, hres, choiceNR_sound p size hnn hsize uss [] res (fun us hus => (hu us hus).2) hinv hres⟩
+
+/-! ### `simple_batch(method="proportional")` end to end -/
+
+omit [LinearOrder α] [IsStrictOrderedRing α] in
+theorem propWeights_getElem? (u : List (Option α)) (s : α) (k : Nat) :
+    (propWeights u s)[k]? = (u[k]?).map (propW s) := by
+  unfold propWeights
+  rw [List.getElem?_map]
+
+/-- the sign analysis `posW` of the selection model is exactly "positive normalised weight" -/
+theorem propWeight_pos_iff (s v : α) (hs : s ≠ 0) : 0 < v / s ↔ posW s (some v) = true := by
+  unfold posW
+  simp only [Bool.or_eq_true, Bool.and_eq_true, decide_eq_true_eq]
+  rcases lt_or_gt_of_ne hs with h | h
+  · rw [div_pos_iff]
+    constructor
+    · rintro (⟨a, b⟩ | ⟨a, b⟩)
+      · exact absurd b (not_lt.mpr (le_of_lt h))
+      · exact Or.inr ⟨h, a⟩
+    · rintro (⟨a, b⟩ | ⟨a, b⟩)
+      · exact absurd a (not_lt.mpr (le_of_lt h))
+      · exact Or.inr ⟨b, h⟩
+  · rw [div_pos_iff]
+    constructor
+    · rintro (⟨a, b⟩ | ⟨a, b⟩)
+      · exact Or.inl ⟨h, a⟩
+      · exact absurd b (not_lt.mpr (le_of_lt h))
+    · rintro (⟨a, b⟩ | ⟨a, b⟩)
+      · exact Or.inl ⟨b, h⟩
+      · exact absurd a (not_lt.mpr (le_of_lt h))
+
+/-- without an entry of the opposite sign all normalised weights are non-negative -/
+theorem propWeights_nonneg (u : List (Option α)) (s : α) (hs : s ≠ 0) (hneg : u.any (negW s) = false) :
+    ∀ x ∈ propWeights u s, 0 ≤ x := by
+  intro x hx
+  unfold propWeights at hx
+  obtain ⟨o, ho, rfl⟩ := List.mem_map.mp hx
+  cases o with
+  | none => exact le_refl 0
+  | some v =>
+    show 0 ≤ v / s
+    have hn : negW s (some v) = false := by
+      have := List.any_eq_false.mp hneg (some v) ho
+      simpa using this
+    unfold negW at hn
+    simp only [Bool.or_eq_false_iff, Bool.and_eq_false_iff, decide_eq_false_iff_not, not_lt] at hn
+    rcases lt_or_gt_of_ne hs with h | h
+    · have hv : v ≤ 0 := by
+        rcases hn.2 with a | a
+        · exact absurd h (not_lt.mpr a)
+        · exact a
+      exact div_nonneg_of_nonpos hv (le_of_lt h)
+    · have hv : 0 ≤ v := by
+        rcases hn.1 with a | a
+        · exact absurd h (not_lt.mpr a)
+        · exact a
+      exact div_nonneg hv (le_of_lt h)
+
+omit [IsStrictOrderedRing α] in
+/-- counting positions of a list by a predicate on the entries = counting the entries -/
+theorem range_filter_length {γ : Type} (l : List γ) (P : γ → Bool) :
+    ((List.range l.length).filter (fun i => match l[i]? with | some x => P x | none => false)).length
+      = (l.filter P).length := by
+  induction l with
+  | nil => simp
+  | cons x xs ih =>
+    rw [List.length_cons, List.range_succ_eq_map, List.filter_cons, List.filter_map]
+    simp only [List.getElem?_cons_zero, List.filter_cons]
+    have : ((fun i => match (x :: xs)[i]? with | some x => P x | none => false) ∘ Nat.succ)
+        = (fun i => match xs[i]? with | some x => P x | none => false) := by
+      funext i; simp
+    rw [this]
+    by_cases h : P x = true
+    · simp [h, ih]
+    · simp [h, ih]
+
+theorem posIdx_propWeights_length (u : List (Option α)) (s : α) (hs : s ≠ 0) :
+    (posIdx (propWeights u s)).length = (u.filter (posW s)).length := by
+  rw [← range_filter_length u (posW s)]
+  unfold posIdx
+  have hl : (propWeights u s).length = u.length := by simp [propWeights]
+  rw [hl]
+  congr 1
+  apply List.filter_congr
+  intro i _
+  rw [propWeights_getElem?]
+  cases hu : u[i]? with
+  | none => rfl
+  | some o =>
+    cases o with
+    | none => simp [posW, propW]
+    | some v =>
+      simp only [Option.map_some, propW]
+      rw [Bool.eq_iff_iff, decide_eq_true_iff]
+      exact propWeight_pos_iff s v hs
+
+/-- **`simple_batch(method="proportional")` never fails for want of an oracle**: on every input numpy accepts (no
+infinity, batch size ≥ 1, non-zero total, no weight of the opposite sign, enough positive weights), for all uniform
+draws in `[0, 1)` and `size` non-empty rounds, the call returns, and what it returns satisfies the specification
+`simpleBatch_prop_spec` (right size, distinct, positive mass, NaN at earlier picks). -/
+theorem simpleBatchProp_ok (isInf : α → Bool) (u : List (Option α)) (b : Nat) (uss : List (List α))
+    (hinf : hasInf isInf u = false) (hb : 1 ≤ b) (hs : nansum u ≠ 0) (hneg : u.any (negW (nansum u)) = false)
+    (hpos : min b (countSome u) ≤ (u.filter (posW (nansum u))).length)
+    (hu : ∀ us ∈ uss, us ≠ [] ∧ ∀ x ∈ us, 0 ≤ x ∧ x < 1) (hlen : min b (countSome u) ≤ uss.length) :
+    ∃ rs c, simpleBatchProp isInf u b uss = .ok rs ∧
+      choiceNR (propWeights u (nansum u)) (min b (countSome u)) uss [] = some c ∧
+      rs.map Prod.fst = c ∧ rs.length = min b (countSome u) ∧ c.Nodup := by
+  have hnn := propWeights_nonneg u (nansum u) hs hneg
+  have hsize : min b (countSome u) ≤ (posIdx (propWeights u (nansum u))).length := by
+    rw [posIdx_propWeights_length u (nansum u) hs]; exact hpos
+  obtain ⟨c, hc, hclen, hcnd, hcpos⟩ := choiceNR_spec (propWeights u (nansum u)) (min b (countSome u)) hnn hsize uss hu hlen
+  have hall : c.all (fun i => posW (nansum u) (u.getD i none)) = true := by
+    rw [List.all_eq_true]
+    intro i hi
+    obtain ⟨v, hv, hvpos⟩ := hcpos i hi
+    rw [propWeights_getElem?] at hv
+    cases hui : u[i]? with
+    | none => rw [hui] at hv; cases hv
+    | some o =>
+      rw [hui] at hv
+      rw [List.getD_eq_getElem?_getD, hui]
+      cases o with
+      | none =>
+        simp only [Option.map_some, Option.some.injEq, propW] at hv
+        rw [← hv] at hvpos; exact absurd hvpos (lt_irrefl 0)
+      | some w =>
+        simp only [Option.map_some, Option.some.injEq, propW] at hv
+        rw [← hv] at hvpos
+        simpa using (propWeight_pos_iff (nansum u) w hs).mp hvpos
+  have hok : ∃ rs, simpleBatch (β := α) isInf u b .proportional [] c = .ok rs := by
+    unfold simpleBatch
+    rw [if_neg (by simp [hinf]), if_neg (by omega)]
+    simp only
+    have h1 : ¬ ((!decide ((0 : α) < nansum u) && !decide (nansum u < (0 : α))) = true) := by
+      rcases lt_or_gt_of_ne hs with h | h <;> simp [h]
+    rw [if_neg h1, if_neg (by simp [hneg]), if_neg (by omega)]
+    rw [if_pos (by
+      rw [Bool.and_eq_true, Bool.and_eq_true]
+      exact ⟨⟨by simpa using hclen, (C18.nodupB_iff c).mpr hcnd⟩, hall⟩)]
+    exact ⟨_, rfl⟩
+  obtain ⟨rs, hrs⟩ := hok
+  obtain ⟨s1, s2, s3, -, -⟩ := C18.simpleBatch_prop_spec isInf u b [] c rs hrs
+  refine ⟨rs, c, ?_, hc, s1, s2, s3⟩
+  unfold simpleBatchProp
+  rw [hc]; exact hrs
 
 /-! ### non-vacuity: a collision in the first round is resolved in the second -/
 
